@@ -2,7 +2,7 @@
    change_value / current_value, kept in two Python lists updated in place) and is_monotone_at - and the two
    accessors output_size / index_of_output, as regenerated from cirbo/core/circuit/circuit.py, equal the hand model
    (circ_is_monotone, circ_is_monotone_at of Model/FuncProto.v on circ_rep c).  Side condition of the two queries:
-   bool_valued c (Proofs/CircuitProtoGenLib.v).
+   fuel_ok c (Proofs/CircuitProtoGenLib.v).
 
    The loop lemmas are generic in the loop body and in what follows the loop (a per-iteration specification is a
    hypothesis; the body is found by unification), so they do not repeat the generated text. *)
@@ -139,7 +139,7 @@ Qed.
 
 Section Mono.
   Variable c : circuit.
-  Hypothesis Hb : bool_valued c.
+  Hypothesis Hb : fuel_ok c.
 
   Ltac sizes := rewrite ?gen_input_size_eq; change (r_n (circ_rep c)) with (length (inputs c)).
 
